@@ -43,6 +43,7 @@ func (m Mode) String() string {
 
 // Reading is what the model says about one string.
 type Reading struct {
+	LeadDC, TrailDC bool // \n \v \f \r among the blanks before / after a complete number
 	Mode    Mode     // comparison mode if the string is input-derived
 	Num     float64  // the number the string stands for in arithmetic (longest prefix, else 0)
 	NumDC   bool     // the reading of the number is a don't-care
@@ -257,6 +258,7 @@ func Read(s string) Reading {
 	default:
 		r.Mode = ModeNumeric
 	}
+	r.LeadDC, r.TrailDC = leadDC, restDC
 	if leadDC {
 		r.NumDC = true // an implementation that does not skip \n \v \f \r reads 0
 	}
